@@ -716,3 +716,23 @@ Section Run2.
       end
     end.
 End Run2.
+
+(** ** 9. the extraction over what the two passes delivered *)
+
+Definition graphs_of_passes (p : rd * rd) : option (graph * graph) :=
+  match rd_stream (fst p), rd_stream (snd p) with
+  | inl a, inl b =>
+    match graph_of_m a, graph_of_m b with
+    | Some g1, Some g2 => Some (g1, g2)
+    | _, _ => None
+    end
+  | _, _ => None
+  end.
+
+(** [None]: a yielder raised, or delivered a literal in subject position *)
+Definition run_over_passes (fa : FreqAlg) (c : rcfg) (thr : F fa) (p : rd * rd)
+  : option ((nsdict * list shape) + rerr) :=
+  match graphs_of_passes p with
+  | Some (g1, g2) => Some (run_shapes2 fa c thr g1 g2)
+  | None => None
+  end.
